@@ -1622,7 +1622,8 @@ class Score:
             data = re.split(pattern, str(s))
             chords = [eval(str(d).replace('\n', '')) for d in data]
             assert isinstance(chords[0], Chord)
-            result = Score(chords)
+            # A piece can itself be a score (a custom chord is not split from the chord before it)
+            result = Score([chord for piece in chords for chord in piece.to_score(copy=False).chords])
             if len(result.chords) == 1:
                 return result.chords[0]
             return result
